@@ -475,6 +475,9 @@ func tamperSign(c *Ctx, kind string) {
 func tamperPresignOnline(c *Ctx) {
 	n := 3
 	t := 1 + c.Intn(2)
+	if c.Intn(3) != 0 {
+		t = 1 // mostly MORE than t+1 signers (all three sign)
+	}
 	m0, _ := newMaterial(c, "cmp", n, t, c.Bytes(8))
 	if !m0.complete() {
 		return
@@ -522,6 +525,10 @@ func tamperPresignOnline(c *Ctx) {
 
 func tamperOnlineRun(c *Ctx, m0 *material, signers []party.ID, pres map[party.ID]*ecdsa.PreSignature, sid []byte, n, t, how int) {
 	cheater := signers[c.Intn(len(signers))]
+	if how == 4 {
+		// the LAST signer of the list: beyond position t when more than t+1 parties sign
+		cheater = party.NewIDSlice(signers)[len(signers)-1]
+	}
 	tm := &tamperer{c: c, cheater: cheater, budget: 1, forceHow: how}
 	msg := msgOfLen(c)
 	hs2 := map[party.ID]protocol.Handler{}
@@ -561,6 +568,11 @@ func tamperOnlineRun(c *Ctx, m0 *material, signers []party.ID, pres map[party.ID
 	in := J{"phase": "sign", "kind": "cmp-presign-online", "n": n, "t": t, "ids": idsHex(m0.ids), "signers": idsHex(signers), "cheater": hx([]byte(cheater)),
 		"tampering": tm.applied, "msg": hx(msg), "sigs": sigs, "blame": culpritsJ(res2, honest), "honest": idsHex(honest),
 		"pub": ptHex(m0.cm[signers[0]].PublicPoint())}
+	if how > 0 && len(tm.applied) > 0 {
+		// a well-formed but wrong sigma share is provable from the presignature (VerifySignatureShares): whoever reaches a
+		// verdict of its own names exactly the deviating signer - wherever it stands in the signer list
+		in["expect_named"] = true
+	}
 	var impl interface{} = J{"ok": true}
 	if res2.Panic != "" {
 		impl = J{"outcome": "PANIC", "detail": res2.Panic}
@@ -875,11 +887,9 @@ func presignIDEquivocation(c *Ctx) {
 	c.Count("sess/tamper/sign/cmp-presign-id-equivocation")
 }
 
-// cmpSignRushingNegation: CMP signing in which one signer RUSHES in the last round: it waits for every other signer's
-// sigma share and then broadcasts sigma_c - 2*(sum of all shares), so that the shares add up to -s. (R, -s) has the
-// right x-coordinate but is not a valid signature for the library's format (R is transmitted as a point): honest signers
-// must abort ("failed to validate signature"), never output it.
-func cmpSignRushingNegation(c *Ctx) {
+// cmpSignRushing: CMP signing in which one signer RUSHES in round `rnd`: it holds its broadcast back until it has seen
+// every other signer's, then replaces the scalar field `field` of its own by craft(own value, sum of ALL values).
+func cmpSignRushing(c *Ctx, label string, rnd int, field string, craft func(own, total curve.Scalar) curve.Scalar, what string) {
 	n, t := 3, 1+c.Intn(2)
 	m0, _ := newMaterial(c, "cmp", n, t, c.Bytes(8))
 	if !m0.complete() {
@@ -907,37 +917,51 @@ func cmpSignRushingNegation(c *Ctx) {
 	}
 	var queue []item
 	var held *protocol.Message
-	sigma := map[party.ID]curve.Scalar{}
+	vals := map[party.ID]curve.Scalar{}
 	applied := []string{}
 	panicMsg := ""
-	getSigma := func(m *protocol.Message) curve.Scalar {
-		var mm map[string][]byte
-		if cbor.Unmarshal(m.Data, &mm) != nil {
+	getVal := func(m *protocol.Message) curve.Scalar {
+		var tree interface{}
+		if cbor.Unmarshal(m.Data, &tree) != nil {
+			return nil
+		}
+		mm, ok := tree.(map[interface{}]interface{})
+		if !ok {
+			return nil
+		}
+		b, ok := mm[field].([]byte)
+		if !ok {
 			return nil
 		}
 		x := secp.NewScalar()
-		if x.UnmarshalBinary(mm["SigmaShare"]) != nil {
+		if x.UnmarshalBinary(b) != nil {
 			return nil
 		}
 		return x
 	}
 	release := func() {
-		if held == nil || len(sigma) != len(signers) {
+		if held == nil || len(vals) != len(signers) {
 			return
 		}
 		total := secp.NewScalar()
-		for _, x := range sigma {
+		for _, x := range vals {
 			total.Add(x)
 		}
-		bad := secp.NewScalar().Set(sigma[cheater]).Sub(total).Sub(total)
+		bad := craft(secp.NewScalar().Set(vals[cheater]), total)
 		b, _ := bad.MarshalBinary()
-		d, err := cbor.Marshal(map[string][]byte{"SigmaShare": b})
+		var tree interface{}
+		if cbor.Unmarshal(held.Data, &tree) != nil {
+			return
+		}
+		mm := tree.(map[interface{}]interface{})
+		mm[field] = b
+		d, err := cbor.Marshal(mm)
 		if err != nil {
 			return
 		}
 		cp := *held
 		cp.Data = d
-		applied = append(applied, "r5: the cheater waits for every other sigma share and broadcasts sigma_c - 2*sum (the shares add up to -s)")
+		applied = append(applied, fmt.Sprintf("r%d: %s", rnd, what))
 		for _, to := range signers {
 			if to != cheater {
 				queue = append(queue, item{&cp, to})
@@ -958,9 +982,9 @@ func cmpSignRushingNegation(c *Ctx) {
 						closed[id] = true
 						break loop
 					}
-					if m.RoundNumber == 5 && m.Broadcast {
-						if x := getSigma(m); x != nil {
-							sigma[id] = x
+					if int(m.RoundNumber) == rnd && m.Broadcast {
+						if x := getVal(m); x != nil {
+							vals[id] = x
 							if id == cheater {
 								held = m
 								release()
@@ -1029,7 +1053,115 @@ func cmpSignRushingNegation(c *Ctx) {
 		impl = J{"outcome": "PANIC", "detail": panicMsg}
 	}
 	c.Emit("tamper", in, impl)
-	c.Count("sess/tamper/sign/cmp-rushing-negation")
+	c.Count("sess/tamper/sign/cmp-rushing-" + label)
+}
+
+// cmpSignRushingNegation: the rushing signer broadcasts sigma_c - 2*(sum of all shares) in the last round, so that the shares
+// add up to -s. (R, -s) has the right x-coordinate but is not a valid signature for the library's format (R is transmitted
+// as a point): honest signers must abort ("failed to validate signature"), never output it.
+func cmpSignRushingNegation(c *Ctx) {
+	cmpSignRushing(c, "negation", 5, "SigmaShare", func(own, total curve.Scalar) curve.Scalar {
+		return own.Sub(total).Sub(total)
+	}, "the cheater waits for every other sigma share and broadcasts sigma_c - 2*sum (the shares add up to -s)")
+}
+
+// cmpSignRushingZeroDelta: the rushing signer broadcasts delta_c - sum in round 4, so that the delta shares add up to ZERO
+// (its point and proofs stay the honest ones). The honest signers must end without naming an honest party - in particular
+// not themselves.
+func cmpSignRushingZeroDelta(c *Ctx) {
+	cmpSignRushing(c, "zero-delta", 4, "DeltaShare", func(own, total curve.Scalar) curve.Scalar {
+		return own.Sub(total)
+	}, "the cheater waits for every other delta share and broadcasts delta_c - sum (the shares add up to 0)")
+}
+
+// doernerKeygenCommitTamper: Doerner key generation in which one party opens something else than it is bound to:
+// the Receiver changes ONE committed value of its round-2 message (chain key contribution or refresh scalar), or the
+// Sender sends a chain-key contribution of the wrong length. The honest party must not finish.
+func doernerKeygenCommitTamper(c *Ctx, variant int) {
+	ids := genIDs(c, 2)
+	recv, send := ids[0], ids[1]
+	if c.Intn(2) == 0 {
+		recv, send = send, recv
+	}
+	sid := c.Bytes(8)
+	hr, err1 := protocol.NewTwoPartyHandler(doerner.Keygen(secp, true, recv, send, nil), sid, true)
+	hsn, err2 := protocol.NewTwoPartyHandler(doerner.Keygen(secp, false, send, recv, nil), sid, false)
+	if err1 != nil || err2 != nil {
+		return
+	}
+	cheater, honest := recv, send
+	if variant == 2 {
+		cheater, honest = send, recv
+	}
+	applied := []string{}
+	filter := func(m *protocol.Message, to party.ID) []*protocol.Message {
+		if m.From != cheater || len(applied) > 0 {
+			return []*protocol.Message{m}
+		}
+		var tree interface{}
+		if cbor.Unmarshal(m.Data, &tree) != nil {
+			return []*protocol.Message{m}
+		}
+		mm, ok := tree.(map[interface{}]interface{})
+		if !ok {
+			return []*protocol.Message{m}
+		}
+		what := ""
+		switch variant {
+		case 0: // Receiver, message2R: another chain key than the committed one
+			if _, is2R := mm["ChainKeyDecommit"]; is2R {
+				if b, ok := mm["ChainKey"].([]byte); ok && len(b) > 0 {
+					nb := append([]byte{}, b...)
+					nb[c.Intn(len(nb))] ^= 1 << uint(c.Intn(8))
+					mm["ChainKey"] = nb
+					what = "message2R /ChainKey one bit flipped (not the committed value)"
+				}
+			}
+		case 1: // Receiver, message2R: another refresh scalar than the committed one
+			if _, is2R := mm["RefreshDecommit"]; is2R {
+				if b, ok := mm["RefreshScalar"].([]byte); ok && len(b) == 32 {
+					nb := append([]byte{}, b...)
+					nb[31] ^= 1
+					mm["RefreshScalar"] = nb
+					what = "message2R /RefreshScalar changed (not the committed value)"
+				}
+			}
+		case 2: // Sender, message1S: a chain-key contribution that is too long
+			if _, is1S := mm["Proof"]; is1S {
+				if b, ok := mm["ChainKey"].([]byte); ok && len(b) == 32 {
+					mm["ChainKey"] = append(append([]byte{}, b...), c.Bytes(1+31*c.Intn(2))...)
+					what = fmt.Sprintf("message1S /ChainKey extended to %d bytes", len(mm["ChainKey"].([]byte)))
+				}
+			}
+		}
+		if what == "" {
+			return []*protocol.Message{m}
+		}
+		d, err := cbor.Marshal(mm)
+		if err != nil {
+			return []*protocol.Message{m}
+		}
+		cp := *m
+		cp.Data = d
+		applied = append(applied, fmt.Sprintf("r%d->%s: %s", m.RoundNumber, to, what))
+		return []*protocol.Message{&cp}
+	}
+	res := runSessions(c, map[party.ID]protocol.Handler{recv: hr, send: hsn}, "fifo", filter)
+	parties := []J{}
+	switch v := res.Results[honest].(type) {
+	case *doerner.ConfigReceiver:
+		parties = append(parties, J{"id": hx([]byte(honest)), "role": "receiver", "share": scHex(v.SecretShare), "pub": ptHex(v.Public), "chain": hx(v.ChainKey)})
+	case *doerner.ConfigSender:
+		parties = append(parties, J{"id": hx([]byte(honest)), "role": "sender", "share": scHex(v.SecretShare), "pub": ptHex(v.Public), "chain": hx(v.ChainKey)})
+	}
+	in := J{"phase": "keygen", "kind": "doerner", "n": 2, "t": 1, "ids": idsHex(ids), "cheater": hx([]byte(cheater)), "tampering": applied,
+		"parties": parties, "blame": culpritsJ(res, []party.ID{honest}), "honest": idsHex([]party.ID{honest}), "expect_no_result": len(applied) > 0}
+	var impl interface{} = J{"ok": true}
+	if res.Panic != "" {
+		impl = J{"outcome": "PANIC", "detail": res.Panic}
+	}
+	c.Emit("tamper", in, impl)
+	c.Count(fmt.Sprintf("sess/tamper/keygen/doerner-commit-tamper-%d", variant))
 }
 
 // equivocateKeygen: the deviating party runs TWO well-formed executions of a key generation (same id, independent
@@ -1209,6 +1341,10 @@ func init() {
 				tamperKeygen(c, k)
 			}
 		}
+		// Doerner key generation: a committed value opened differently / a contribution of the wrong length
+		for v := 0; v < 3; v++ {
+			doernerKeygenCommitTamper(c, v)
+		}
 		// a dealer whose polynomial has the wrong degree, consistently
 		for i := 0; i < 2+c.N/15; i++ {
 			frostLowDegreeDealer(c, []string{"frost", "frost-taproot"}[i%2])
@@ -1226,6 +1362,7 @@ func init() {
 		}
 		// CMP signing with a rushing signer that negates the sum of the sigma shares (once per run)
 		cmpSignRushingNegation(c)
+		cmpSignRushingZeroDelta(c)
 		// offline presigning with an equivocated presignature-ID contribution in the last broadcast (once per run)
 		presignIDEquivocation(c)
 		// CMP keygen with a well-formed encryption of an out-of-range share (once per run: ~10 s)
